@@ -53,6 +53,10 @@ REGISTRY = {
                          'that MulticlassCarver accepts as self.<p> plus **self.kwargs, MulticlassCarver.__init__ forwards every parameter to BaseCarver.__init__, which stores it. '
                          'BOUNDED: column-by-column equality of MulticlassCarver.transform with independently fitted BinaryCarvers on 1[y=c] (kept iff kept), raw columns unchanged, '
                          'classes = all but the first in string order (numeric labels 9/10/11 included).'),
+ 'C19': dict(level='other', P=[], S=['contracts.forwarding:refit_guard_obligations'], R=['rtc.c19_malformed'],
+             explanation='PROVED on the program text (syntactic contract checks): the first statement of every public fit is the refit guard `assert not self.is_fitted`, so a second fit is refused '
+                         'before any write to the object. BOUNDED: every malformation of the property list injected at a seeded row into valid samples, for the three carvers and the Discretizer '
+                         'family, on fresh and on fitted objects: AssertionError and nothing else; values_orders / to_json / transform of a fitted object unchanged by the rejected call.'),
  'C13': dict(level='proof', P=[GL_ALL], R=['rtc.c13_grouped_list'],
              explanation='GroupedList: representation invariant WF established by the three constructors and preserved by every mutating method, exact effect of each '
                          'operation on the abstract view (ordered leader -> members), observers equal to their definition over the view: proved for all inputs by engine P '
